@@ -36,6 +36,30 @@ recording player, time patterns under a harness-set logical time), which also
 observe objects as streams (ValueStream / DictionaryStream), what Ptrace
 prints, iter() of a running stream, and a seeded stream next to an unseeded
 consumer in another thread.
+
+Round 9 (numeric edges).  Class that was not reached: the behaviour of the
+classes whose documented meaning involves a tolerance or a comparison of
+accumulated numbers, AT the edge of that comparison.  Pconst had no tolerance
+argument in the expression language and only dyadic data, so no running total
+ever fell inside the tolerance window without reaching the sum.  Now: the
+tolerance is part of the Pconst node (left out = 0.001, decimal 0.01 / 0.1 / 0.3
+..., dyadic, coarse 0.5 / 1.5 / 2.5, int 1..8, zero), sources are planned in
+units so that the deciding total lands on a chosen place - on the sum, beyond
+it, in the upper and in the lower half of the window, one unit inside / outside
+its lower border, exactly on that border, two tolerances away -, with int and
+float (decimal: 0.7493) data, prefixes made of Pseries / Pgeom (accumulating),
+Pstutter with pattern-valued counts incl. 0, Pn, nested Pconst, a tail that
+shows whether the pattern went on, nested in Pseq / Pn / Plen / Pdrop / Pclump /
+Pdiff / operators / an outer Pconst (vf/c13_gen.py: pconst_edge, edge).  The
+model decides each total with exact rationals (vf/model_patterns.py:
+pconst_zone quotes the help sentence that decides each edge) and gives no
+verdict where the documentation is silent (the border itself; sums that are not
+a multiple of the tolerance); a step-by-step audit of stand-alone Pconst
+(pconst_audit / pconst_diagnose) holds those inputs, too, to what every reading
+demands and names the mechanism key.  Siblings: Plen / Pdrop / Pclump counts at,
+one below and one above the length of their source, Pclump with pattern-valued
+sizes incl. 0.  Values of expressions with decimal literals are compared to one
+part in 1e9, everything else exactly as before.
 """
 
 from vf.common import iter_cases, case_rng, h64, split, short_tb, tb_sites
@@ -51,7 +75,13 @@ RULE = ("seeded typed random pattern expressions of depth 1-5 over Pseq, Pser, "
         "Pwhile, Pgate, Pprorate, Pproduct, Ptrace, Pvalue, decorator-made "
         "patterns, dict items and ten more random leaves + Pfsm; blueprint "
         "shards: every Pattern subclass (69) with canonical and generated "
-        "arguments; first 64 values + end position "
+        "arguments; since round 9 Pconst with its tolerance argument (left out, "
+        "decimal, dyadic, coarse, int, zero) over sources planned so that the "
+        "deciding running total lands on the sum, beyond it, in either half of "
+        "the tolerance window, next to and on its lower border (14 % of the "
+        "numeric cases + a step-by-step audit of stand-alone Pconst), Plen / "
+        "Pdrop / Pclump counts next to the source's length, zero clump sizes; "
+        "first 64 values + end position "
         "compared with the denotational model; a case is non-trivial when the "
         "expression nests at least 2 levels, uses at least 2 distinct classes "
         "and the model sequence has at least 2 values; distinct = hash of the "
@@ -70,8 +100,7 @@ ASSUMPTIONS = [
     "scratch runs, see proposed_fixes/ and the report): Pflatten of items "
     "nested deeper than n (the port flattens the stream n levels, sclang the "
     "items n levels and then spreads them - both are readings of the help "
-    "text); Pconst partial sums within tolerance of the target (an audit with "
-    "reading-independent invariants found no deviation); float / negative "
+    "text); float / negative "
     "repeats and lengths; empty lists (ListPattern raises ValueError by "
     "design); pattern-valued repeats or start values (not supported by the "
     "port's constructors); Pselect/Preject predicates that do not return bool",
@@ -138,6 +167,43 @@ ASSUMPTIONS = [
     "harness-set NRT logical time (dyadic, base + j / 4) and frozen time in the "
     "thread phase; Pgate / Pkey / Pn-with-key instances whose input event "
     "changes with the pull index skip the re-embedding comparison",
+    "Pconst and its tolerance (round 9).  /repo has NO doc string for Pconst, "
+    "Pdur, Plen, Pstutter, Pclump, Pseries, Pgeom (checked: the pattern modules "
+    "only have their one-line module doc strings and '# Was Pfindur' / '# Was "
+    "Pfin' notes), so the deciding sentences are those of the help files the "
+    "port points to.  Pconst help: 'Embeds elements of the pattern into the "
+    "stream until the sum comes close enough to sum. At that point, the "
+    "difference between the specified sum and the actual running sum is "
+    "embedded.'; `tolerance` (default 0.001, same name and default as Pfindur's "
+    "'until the duration comes close enough to dur') says how close.  Per edge: "
+    "total >= sum - 'comes close enough' / 'at that point': ends with the "
+    "remainder (every reading); total more than one tolerance below the sum - "
+    "not close enough: value handed on (every reading in which tolerance bounds "
+    "the distance); total less than one tolerance below a sum that is a "
+    "multiple of the tolerance (to 1e-9: decimals) - close enough, BOTH halves "
+    "of the window: this is the reading the statement's 'constrained sums' is "
+    "taken in, it is what the port's quantisation (round the total UP to a "
+    "multiple of tolerance) gives on such sums; total exactly one tolerance "
+    "below the sum (+-1e-9 relative, the float noise of the library's three "
+    "IEEE operations) - 'close enough' does not say whether the border "
+    "belongs to it: no verdict; sum not a multiple of the tolerance and total "
+    "inside the window - the port (and sclang) quantise, which is narrower "
+    "than the distance, the help is silent: no verdict (both only audited for "
+    "reached / outside / values unchanged / remainder); tolerance 0: only a "
+    "reached sum ends it; source ends first: the remainder is appended (the "
+    "help's 'constrain the sum'); the remainder is sum - (total so far) with "
+    "Python's int/float result kind",
+    "values are compared exactly, except in expressions that contain a decimal "
+    "float literal (not a multiple of 2**-20): there to one part in 1e9, since "
+    "a series or a remainder may be computed by mathematically equal formulas "
+    "that round differently; sequence lengths and end positions are always "
+    "exact",
+    "Plen(p, n) / Pdrop(p, n) / Pclump(p, n) with n at, below and above the "
+    "length of p: Pfin help ('embeds n elements ... ends earlier if the "
+    "pattern does'), Pdrop help ('drops the first n'), Pclump help ('groups of "
+    "n; the last one may be shorter'); a size 0 gives an empty list per size "
+    "value (range(0) in the help's terms: 'n' items) - only pattern-valued "
+    "sizes with zeros among them are productive",
     "Pwalk(list, 0): once that defect is seen in an expression every other "
     "observation on the same expression is attributed to it (the walk is an "
     "unseeded random one); such expressions are not used in the threads and "
@@ -204,8 +270,23 @@ MIN_COUNTERS = {
                  'concurrent_seeded_streams_compared': 5000,
                  'concurrent_seeded_values_compared': 500000},
 }
+# round 9: the numeric edges must have been met (model notes: which zone the
+# deciding running total of a Pconst fell into; the audit's own counters)
+EDGE_MINS = {'pconst_total_within_tolerance_lower_half': 350,
+             'pconst_total_within_tolerance_upper_half': 250,
+             'pconst_total_equal_to_sum': 400, 'pconst_total_beyond_sum': 500,
+             'pconst_total_just_outside_tolerance': 700,
+             'pconst_source_ended_first': 150,
+             'pconst_tolerance_left_out': 350, 'pconst_tolerance_fine': 350,
+             'pconst_tolerance_coarse': 180, 'pconst_tolerance_int': 250,
+             'expressions_with_decimal_literals': 350,
+             'pconst_audits': 600, 'pconst_audit_ended_at_within': 250,
+             'pconst_audit_ended_at_reached': 250,
+             'pconst_audit_ended_at_off-grid': 8}
 MIN_COUNTERS['quick'].update(_mins(1))
 MIN_COUNTERS['thorough'].update(_mins(5))
+MIN_COUNTERS['quick'].update(EDGE_MINS)
+MIN_COUNTERS['thorough'].update({k: 5 * v for k, v in EDGE_MINS.items()})
 
 N = 64
 
@@ -251,7 +332,7 @@ def detail(node):
     return ''
 
 
-CASE = {'inval': None, 'leaves': None}     # context of the running case
+CASE = {'inval': None, 'leaves': None, 'rel': 0.0}     # context of the running case
 
 PDROP_KEY = 'C13/sequence-differs/Pdrop/dropped-value-passed-on-as-input-value'
 PROUT_KEY = 'C13/sequence-differs/Prout/embedded-ignores-later-input-values'
@@ -318,9 +399,83 @@ def zero_walk(node):
                for n in mp.walk(node))
 
 
-def seq_key(bn, bk, ctx):
+def pconst_diagnose(src, src_ended, total, tol, got, ended, rel=0.0):
+    """What a Pconst did wrong, step by step along its source values (model
+    of the source) and its own output: None when nothing the documentation
+    decides is violated.  Reading-independent where vf.model_patterns.
+    pconst_zone leaves the edge open ('border', 'off-grid'): there both
+    continuations are accepted."""
+    from vf import model_patterns as mp
+    acc = 0
+    if ended and not got:
+        return 'empty-sequence'         # (there is always a remainder)
+    for j, g in enumerate(got):
+        last = ended and j == len(got) - 1
+        if j >= len(src):
+            if not src_ended:
+                return None             # beyond what is known of the source
+            if not (last and j == len(src)):
+                return 'values-after-the-remainder'
+            return None if mp.same_value(g, total - acc, rel) else 'remainder-wrong'
+        v = src[j]
+        if isinstance(v, bool) or not isinstance(v, (int, float)):
+            return None
+        t = acc + v
+        zone = mp.pconst_zone(t, total, tol)
+        noise = False
+        if tol and zone in ('reached', 'within'):
+            q = mp.Fraction(total) / mp.Fraction(tol)
+            k = round(q)
+            if abs(q - k) <= mp.GUARD * max(1, k) and k * tol < total:
+                # the sum is a multiple of the tolerance as written (0.9 and
+                # 0.3), but the IEEE product k * tolerance lies below it
+                # (3 * 0.3 < 0.9): one mechanism of its own
+                noise = True
+        if last:
+            if not mp.same_value(g, total - acc, rel):
+                return 'remainder-wrong'
+            if zone == 'outside':
+                return 'total-outside-tolerance-taken-as-complete'
+            return None
+        if not mp.same_value(g, v, rel):
+            if mp.same_value(g, total - acc, rel):
+                return 'values-after-the-remainder'
+            return 'value-changed'
+        if noise:
+            return 'multiple-of-tolerance-rounds-below-sum'
+        if zone == 'reached':
+            return 'total-reached-not-taken-as-complete'
+        if zone == 'within':
+            return 'total-within-tolerance-not-taken-as-complete'
+        acc = t
+    if ended and src_ended and len(got) == len(src):
+        return 'remainder-missing'      # (only when the source ended first)
+    return None
+
+
+def pconst_key(bn, bgot):
+    """Mechanism key of a mismatching Pconst from its own output, or None."""
+    from vf import model_patterns as mp
+    if bgot is None:
+        return None
+    try:
+        src, src_ended = mp.take(bn[1], BLAME_N + 1, fuel=200000,
+                                 leaves=CASE['leaves'], inval=CASE['inval'])
+        tol = bn[3] if len(bn) > 3 else mp.DEFAULT_TOLERANCE
+        d = pconst_diagnose(src, src_ended, bn[2], tol, bgot, len(bgot) < BLAME_N,
+                            mp.REL if mp.has_decimal(bn) else 0.0)
+    except Exception:
+        return None
+    return f'C13/sequence-differs/Pconst/{d}' if d else None
+
+
+def seq_key(bn, bk, ctx, bgot=None):
     from vf import model_patterns as mp
     inval = CASE['inval']
+    if bn[0] == 'Pconst' and not ctx:
+        k = pconst_key(bn, bgot)
+        if k:
+            return k
     names = [n[0] for n in mp.walk(bn)]
     if bn[0] == 'Pdrop' and bn[2] > 0 and any(n in INVAL_NODES for n in names):
         # one mechanism, several symptoms (value, TypeError, hang)
@@ -351,14 +506,18 @@ def seq_key(bn, bk, ctx):
     return f'C13/sequence-differs/{bn[0]}' + (f'/{d}' if d else '') + f'/{bk}{ctx}'
 
 
-def compare(exp, exp_ended, got, got_ended, exc, strict=False):
+def compare(exp, exp_ended, got, got_ended, exc, strict=False, rel=None):
     """None or the kind of mismatch.  strict: int and float are different
-    results (only for expressions whose number kinds are documented)."""
+    results (only for expressions whose number kinds are documented).  rel:
+    relative tolerance of the value comparison (0 = exact; None = the running
+    case's: 1e-9 when the expression has decimal float literals)."""
     from vf.model_patterns import same_value, same_kind
+    if rel is None:
+        rel = CASE.get('rel', 0.0)
     if exc is not None:
         return f'raises-{type(exc).__name__}'
     for a, b in zip(exp, got):
-        if not same_value(a, b):
+        if not same_value(a, b, rel):
             return 'value'
         if strict and not same_kind(a, b):
             return 'int-float-kind'
@@ -451,8 +610,8 @@ def check_node(node, leaves, how='iter', n=N, inval=None):
     if inval is not None and getattr(inval, 'base', inval) is not None:
         how = how if how in ('next', 'embed') else 'next'
     got, got_ended, exc = cb.real_take(pat, n, how, inval)
-    return compare(exp, exp_ended, got, got_ended, exc,
-                   mp.kind_is_fixed(node)), exp, got, exc
+    return compare(exp, exp_ended, got, got_ended, exc, mp.kind_is_fixed(node),
+                   mp.REL if mp.has_decimal(node) else 0.0), exp, got, exc
 
 
 BLAME_N = 8 * N     # a sub-expression may differ only beyond the first 64 values
@@ -503,6 +662,8 @@ def run_shard(spec, acc):
         from vf import c13_blue
         return c13_blue.run_blue(spec, acc)
     leaves = Leaves(acc)
+    if 'only_case' not in spec:
+        pconst_audit(spec, acc, max(60, spec['shard']['n'] // 16))
     for i in iter_cases(spec):
         leaves.case = i
         # -- generate a productive expression -----------------------------
@@ -524,13 +685,18 @@ def run_shard(spec, acc):
                         for _ in range(rng.randint(1, 7))]
                 inval = mp.Inval({'k': rng.choice([1, 3, -2])}, inval.delta,
                                  gate if rng.random() < 0.85 else None)
+            notes = {}
             try:
-                exp, exp_ended = mp.take(cand, N, leaves=leaves, inval=inval)
+                exp, exp_ended = mp.take(cand, N, leaves=leaves, inval=inval,
+                                         notes=notes)
             except mp.OutOfFuel:
                 acc.count('discarded_unproductive')
                 continue
-            except mp.OutOfDomain:
-                acc.count('discarded_beyond_32bit')
+            except mp.OutOfDomain as e:
+                if 'undecided zone' in str(e):
+                    acc.count('discarded_pconst_total_at_undecided_edge')
+                else:
+                    acc.count('discarded_beyond_32bit')
                 continue
             except LeafBroken:
                 acc.count('discarded_broken_random_leaf')
@@ -548,6 +714,18 @@ def run_shard(spec, acc):
             acc.count('cases_without_expression')
             continue
         CASE['inval'], CASE['leaves'] = inval, leaves
+        CASE['rel'] = mp.REL if mp.has_decimal(node) else 0.0
+        if CASE['rel']:
+            acc.count('expressions_with_decimal_literals')
+        for k_, v_ in notes.items():
+            acc.count(k_, v_)
+        for n_ in mp.walk(node):
+            if n_[0] == 'Pconst':
+                tol_ = n_[3] if len(n_) > 3 else None
+                acc.count('pconst_tolerance_' + (
+                    'left_out' if tol_ is None else 'int' if type(tol_) is int
+                    else 'zero' if tol_ == 0 else 'coarse' if tol_ >= 0.25
+                    else 'fine'))
         text = gen.show(node)
         classes = gen.classes(node)
         dep = gen.depth(node)
@@ -602,7 +780,7 @@ def run_shard(spec, acc):
                     else:
                         bn, bk, bexp, bgot, bexc = b
                         ctx = ''
-                    key = seq_key(bn, bk, ctx)
+                    key = seq_key(bn, bk, ctx, bgot if bexc is None else None)
                     # (an unseeded random walk agrees or not by chance: no
                     # classification by rebuilding)
                     mech = None if zero_walk(node) else \
@@ -727,7 +905,7 @@ def run_shard(spec, acc):
             b = blame(node, leaves, limit=3)
             if b is not None:
                 # e.g. Stream.all() on a stream that should have ended
-                key = seq_key(b[0], b[1], '')
+                key = seq_key(b[0], b[1], '', b[3] if b[4] is None else None)
                 acc.violation(key, {'case': i, 'expression': text,
                                     'blamed': gen.show(b[0]), 'mismatch': b[1],
                                     'model': b[2][:24], 'library': b[3][:24],
@@ -743,6 +921,81 @@ def run_shard(spec, acc):
         if acc.want_sample() and nontrivial and 30 < len(text) < 200:
             acc.sample({'case': i, 'expression': text, 'model_first_values': exp[:12],
                         'ends': exp_ended, 'driver': how})
+
+
+def pconst_audit(spec, acc, n):
+    """Stand-alone Pconst over a planned source, judged step by step with
+    pconst_diagnose: also the inputs the denotational comparison discards
+    (totals exactly one tolerance below the sum, sums off the tolerance grid)
+    are held to what every reading demands - values handed on unchanged, a
+    total that has reached the sum ends the pattern, a total farther away than
+    the tolerance does not, the last value is the remainder."""
+    import random
+    import time
+    from vf import model_patterns as mp, c13_gen as gen, c13_build as cb
+    t_end = time.monotonic() + min(30, spec['shard'].get('secs', 45) / 10)
+    for j in range(n):
+        if time.monotonic() > t_end:
+            break
+        rng = case_rng(spec['seed'], 'C13', 'pconst-audit',
+                       (spec['shard']['first_case'], j))
+        top = gen.Gen(rng).pconst_edge()
+        # (a constrained sum inside the source is judged first: the outer one
+        # is only judged over a source that is what the model says)
+        inner = [n_ for n_ in mp.walk(top[1]) if n_[0] == 'Pconst']
+        for node in inner + [top]:
+            if _audit_one(node, j, rng, spec, acc):
+                break
+
+
+def _audit_one(node, j, rng, spec, acc):
+    """True when this Pconst is wrong or cannot be judged (stop going outwards)"""
+    from vf import model_patterns as mp, c13_gen as gen, c13_build as cb
+    tol = node[3] if len(node) > 3 else mp.DEFAULT_TOLERANCE
+    try:
+        src, src_ended = mp.take(node[1], 400, fuel=100000)
+    except (mp.OutOfFuel, mp.OutOfDomain):
+        acc.count('pconst_audit_source_undecided')
+        return True
+    how = rng.choice(['iter', 'next', 'embed'])
+    try:
+        with cb.time_limit(5):
+            # is the source what the model says?  If not that is another
+            # class's matter (the expression shards name it)
+            sgot, sended, sexc = cb.real_take(cb.build(node[1]), 400, how)
+            if compare(src, src_ended, sgot, sended, sexc, False,
+                       mp.REL if mp.has_decimal(node[1]) else 0.0):
+                acc.count('pconst_audit_source_differs_from_model')
+                return True
+            got, ended, exc = cb.real_take(cb.build(node), 400, how)
+    except cb.RealTimeout:
+        acc.violation('C13/hang/Pconst', {'audit': j, 'expression': gen.show(node)})
+        return True
+    acc.count('pconst_audits')
+    w = {'audit': [spec['shard']['first_case'], j], 'expression': gen.show(node),
+         'source_values': src[:24], 'library': got[:24], 'driver': how}
+    if exc is not None:
+        acc.violation(f'C13/sequence-differs/Pconst/raises-{type(exc).__name__}',
+                      dict(w, tb=short_tb(exc)))
+        return True
+    # (not ended after 400 values - a long sum of small values: the prefix is
+    # judged all the same: a total that has reached the sum is a violation)
+    d = pconst_diagnose(src, src_ended, node[2], tol, got, ended,
+                        mp.REL if mp.has_decimal(node) else 0.0)
+    # the zone of the total at which the library ended
+    acc_ = 0
+    for v in src[:len(got) - 1]:
+        acc_ = acc_ + v
+    if not got or not ended:
+        acc.count('pconst_audit_not_ended_in_400_values')
+    elif len(got) <= len(src):
+        z = mp.pconst_zone(acc_ + src[len(got) - 1], node[2], tol)
+        acc.count('pconst_audit_ended_at_' + z)
+    else:
+        acc.count('pconst_audit_ended_with_the_source')
+    if d:
+        acc.violation(f'C13/sequence-differs/Pconst/{d}', w)
+    return bool(d)
 
 
 RESUME_POLLS = 80
@@ -901,6 +1154,8 @@ def _pull(s, n):
                 out.append(s.next(None))
             except StopStream:
                 break
+    except cb.RealTimeout:
+        raise
     except Exception as e:
         out.append(f'raised {type(e).__name__}: {e}'[:120])
     return out
@@ -929,7 +1184,16 @@ def run_threads(spec, acc):
             rng = case_rng(spec['seed'], 'C13', 'threads', i)
             nth = rng.randint(2, 4)
             defs = [_seeded_definition(rng, gen, leaves) for _ in range(nth)]
-            before = [_pull(f(), n) for _, f, n, _ in defs]
+            # (single-threaded reference runs are bounded: a library that makes
+            # a productive definition unproductive must not stall the shard)
+            try:
+                with cb.time_limit(30):
+                    before = [_pull(f(), n) for _, f, n, _ in defs]
+            except cb.RealTimeout:
+                acc.violation('C13/seeded-stream-differs/single-threaded-run-hangs',
+                              {'case': i, 'definitions': [d[0] for d in defs],
+                               'note': 'no values within 30 s; the model is productive'})
+                continue
             streams = [f() for _, f, _, _ in defs]
             got = [None] * nth
             barrier = threading.Barrier(nth)
@@ -957,7 +1221,14 @@ def run_threads(spec, acc):
                               {'case': i, 'definitions': [d[0] for d in defs]})
                 # the stuck threads may hold library state: stop this shard
                 break
-            after = [_pull(f(), n) for _, f, n, _ in defs]
+            try:
+                with cb.time_limit(30):
+                    after = [_pull(f(), n) for _, f, n, _ in defs]
+            except cb.RealTimeout:
+                acc.violation('C13/seeded-stream-differs/single-threaded-run-hangs',
+                              {'case': i, 'definitions': [d[0] for d in defs],
+                               'note': 'second reference run: no values within 30 s'})
+                continue
             acc.count(f'concurrent_consumers_{nth}')
             for k, (text, f, n, model) in enumerate(defs):
                 acc.count('concurrent_seeded_streams_compared')
@@ -985,7 +1256,7 @@ def run_threads(spec, acc):
                         CASE['inval'], CASE['leaves'] = None, leaves
                         mech = inval_mechanism(cand, exp, ended, 'next', None)
                         b = None if mech else blame(cand, leaves)
-                        key = mech[0] if mech else seq_key(b[0], b[1], '') if b \
+                        key = mech[0] if mech else seq_key(b[0], b[1], '', b[3]) if b \
                             else 'C13/seeded-stream-differs/model-' + bad
                         acc.violation(key, dict(w, model=exp[:16]))
             # the main time thread must be current again
